@@ -10,6 +10,7 @@ import (
 	"errors"
 	"fmt"
 	"math/big"
+	"os"
 	"sort"
 	"strings"
 	"time"
@@ -1514,6 +1515,64 @@ func tokenSoup(g *vx.Rng) string {
 	return b.String()
 }
 
+// resourceLimitScript: a valid script that allocates exactly k distinct resources: k/2 lines set_tx_meta("k<i>", <i>)
+// (a string and a number each; `0` is the number 0 for ever after) and, for odd k, one account.
+func resourceLimitScript(k int) string {
+	var b strings.Builder
+	for i := 0; i < k/2; i++ {
+		fmt.Fprintf(&b, "set_tx_meta(\"k%d\", %d)\n", i, i)
+	}
+	if k%2 == 1 {
+		b.WriteString("set_account_meta(@acc, \"k0\", 0)\n")
+	}
+	return b.String()
+}
+
+// resourceLimitFamily (C12, thorough tier only: the compiler's constant lookup is quadratic, one such script takes
+// 10-20 s to compile). The model refuses the allocation that would make the table longer than max_resources = 65 536
+// (Numscript/Compiler.v append_resource; Numscript/ResourceLimit.v: every address handed out fits 16 bits), which is
+// what keeps a program.Address (uint16) from wrapping onto resource 0. Here the real compiler meets scripts with
+// exactly 65 535, 65 536, 65 537 and 65 538 distinct resources: it accepts exactly those the model accepts, an accepted
+// program has at most 65 536 resources, and neither compiling nor running one panics.
+func resourceLimitFamily(r *vx.Run) {
+	const limit = 65536
+	for _, k := range []int{limit - 1, limit, limit + 1, limit + 2} {
+		in := nsx.Input{Script: resourceLimitScript(k), Vars: map[string]string{}, Balances: map[string]map[string]string{}, Meta: map[string]map[string]string{}, Note: fmt.Sprintf("resource-limit:%d", k)}
+		ob := observe(in)
+		r.Count(fmt.Sprintf("resource-limit:%d:%s", k, ob.Stage))
+		r.Case("", nsx.Input{Note: in.Note}, in.Note, false)
+		size := len(in.Script)
+		if ob.Panic != "" {
+			site := ob.Panic
+			if len(site) > 60 {
+				site = site[:60]
+			}
+			r.FailP("C12", "panic:"+ob.Stage+":"+site, in, fmt.Sprintf("script with exactly %d distinct resources: %s", k, ob.Panic), size)
+			continue
+		}
+		if ob.Elapsed > 5*time.Minute {
+			r.FailP("C12", "slow:"+ob.Stage, in, ob.Elapsed.String(), size)
+		}
+		accepted := ob.Stage != "compile"
+		switch {
+		case accepted && k > limit:
+			n := -1
+			if ob.Prog != nil {
+				n = len(ob.Prog.Resources)
+			}
+			r.FailP("C12", "resource-limit:accepted-beyond-the-address-space", in, fmt.Sprintf("a script with %d distinct resources compiled (program has %d resources; addresses are 16 bits): stage %s class %s", k, n, ob.Stage, ob.Class), size)
+		case !accepted && k <= limit:
+			r.FailP("C12", "resource-limit:refused-within-the-limit", in, fmt.Sprintf("a script with %d distinct resources was refused (class %s); the model accepts up to %d", k, ob.Class, limit), size)
+		case accepted && (ob.Prog == nil || len(ob.Prog.Resources) != k):
+			r.FailP("C12", "resource-limit:table-length", in, fmt.Sprintf("expected %d resources in the compiled program", k), size)
+		case accepted && ob.Stage != "done":
+			r.FailP("C12", "resource-limit:run", in, fmt.Sprintf("a valid script with %d resources ended at stage %s class %s", k, ob.Stage, ob.Class), size)
+		case accepted && len(ob.TxMeta) != k/2:
+			r.FailP("C12", "resource-limit:metadata", in, fmt.Sprintf("expected %d transaction metadata keys, got %d", k/2, len(ob.TxMeta)), size)
+		}
+	}
+}
+
 func main() {
 	r := vx.Start("C08", "numscript")
 	r.Cases("From FL Require Import Numscript.Corr.\nClose Scope Z_scope.\nOpen Scope nat_scope.\n", "ncase", 250)
@@ -1576,6 +1635,9 @@ func main() {
 		in.Note = "ill-typed"
 		one(r, in)
 		r.Count("ill-typed-stream")
+	}
+	if r.Thorough() || os.Getenv("VERIF_RESLIMIT") == "1" {
+		resourceLimitFamily(r)
 	}
 	// nothing of one execution may survive into another (C12 determinism, C08): the first executions of the run,
 	// repeated at its end, must give what they gave
